@@ -76,6 +76,8 @@ pub struct Sched {
     discarded: Cell<bool>,
     diverged: Cell<bool>,
     inject: RefCell<Option<Inject>>,
+    /// beyond the replay prefix, cooperative decisions take the last alternative instead of the first
+    policy_last: Cell<bool>,
     target_taps: Cell<usize>,
     tap_log: RefCell<Option<Vec<(i32, &'static str)>>>,
     state: RefCell<Option<Rc<RefCell<SystemState>>>>,
@@ -109,7 +111,13 @@ impl Sched {
         let mut d = self.decisions.borrow_mut();
         let i = d.len();
         let p = self.prefix.borrow();
-        let mut c = if i < p.len() { p[i] } else { 0 };
+        let mut c = if i < p.len() {
+            p[i]
+        } else if self.policy_last.get() && !is_tap {
+            n - 1
+        } else {
+            0
+        };
         if c >= n {
             // replay divergence: hard machinery error, reported by the caller
             self.diverged.set(true);
@@ -778,7 +786,7 @@ fn jl_main(env: &mut Env<VS>, args: Vec<Field>) -> BuiltinFuture<'_> {
         );
         for (i, j) in env.jobs.iter() {
             t.push_str(&format!(
-                " {i};{};{:?};{};{};{}|",
+                "\x1e{i}\x1f{}\x1f{:?}\x1f{}\x1f{}\x1f{}",
                 j.pid.0, j.state, j.state_changed, j.job_controlled, j.name
             ));
         }
@@ -903,6 +911,8 @@ pub struct RunOpts {
     pub taps: bool,
     pub inject: Option<Inject>,
     pub log_taps: bool,
+    /// deterministic scheduling policy: last runnable process instead of the first
+    pub policy_last: bool,
 }
 
 #[derive(Clone, Debug, PartialEq, Eq)]
@@ -975,6 +985,7 @@ pub fn run_once(setup: &Setup, opts: &RunOpts) -> Run {
     *sched.prefix.borrow_mut() = opts.prefix.clone();
     sched.use_taps.set(opts.taps);
     *sched.inject.borrow_mut() = opts.inject.clone();
+    sched.policy_last.set(opts.policy_last);
     *sched.state.borrow_mut() = Some(Rc::clone(&state));
     if opts.log_taps {
         *sched.tap_log.borrow_mut() = Some(vec![]);
@@ -1164,11 +1175,9 @@ pub fn run_once(setup: &Setup, opts: &RunOpts) -> Run {
                     continue;
                 }
                 drop(st);
-                let alive = state
-                    .borrow()
-                    .processes
-                    .values()
-                    .any(|p| p.state().is_alive());
+                // the main shell is blocked for ever (processes that outlive an exited main shell
+                // are reported in `Run::alive`, not as a deadlock)
+                let alive = state.borrow().processes.get(&Pid(2)).is_some_and(|p| p.state().is_alive());
                 if alive {
                     end = Some(End::Deadlock);
                 }
